@@ -5,54 +5,77 @@ import AfkakProofs.Consumer.Inv0
 namespace Afkak.Proofs.Consumer
 open Afkak.Consumer Afkak.Monitor Afkak.Consts
 
-theorem handleOffsetResponse_pres (cfg : Cfg) (b : Bool) (o : Int) : Pres cfg (handleOffsetResponse cfg b o) := by
-  intro s hs
-  have hx := Good.refl hs
-  unfold handleOffsetResponse
-  simp only []
-  split
-  · leaf hx
-  · split
-    · exact (doFetch_pres cfg).step (by leaf hx)
-    · split
-      · exact (doFetch_pres cfg).step (by leaf hx)
-      · exact (doFetch_pres cfg).step (by leaf hx)
+/-- `_do_fetch` while the consumer is running -/
+theorem doFetch_good (cfg : Cfg) {s0 s : St} (h : Good cfg s0 s) (hr : s.startD ≠ .none) : Good cfg s0 (doFetch cfg s) := by
+  unfold doFetch startErrback errbackRaises
+  (try unfold emit)
+  leaf h
 
-theorem handleOffsetError_pres (cfg : Cfg) (f : Fail) : Pres cfg (handleOffsetError cfg f) := by
+/-- `_handle_offset_response` for an OffsetResponse (the OffsetFetchResponse case changes the committed
+    offset and is treated with its event) -/
+theorem offsetResponseTail_pres (cfg : Cfg) (o : Int) : Pres cfg (offsetResponseTail cfg false o) := by
   intro s hs
   have hx := Good.refl hs
+  unfold offsetResponseTail
+  split
+  · exact hx
+  · rename_i hr
+    have hr' : s.startD ≠ .none := by simpa using hr
+    simp only [Bool.not_false, if_true]
+    exact doFetch_good cfg (by leaf hx) hr'
+
+/-- `_do_fetch` with no request outstanding and a numeric position: a FetchRequest goes out -/
+theorem doFetch_numeric (cfg : Cfg) (s : St) (h1 : s.requestD = .none) (h2 : s.fetchOffset ≠ offsetEarliest)
+    (h3 : s.fetchOffset ≠ offsetLatest) (h4 : s.fetchOffset ≠ offsetCommitted) :
+    doFetch cfg s =
+      (match s.retryCall with
+        | .pending _ =>
+          { s with out := .ob (.fetch s.nextReq s.fetchOffset s.bufferSize) :: .ob (.cancelTimer .retry) :: s.out,
+                   retryCall := .none, requestD := .pending s.nextReq .fetch false, nextReq := s.nextReq + 1 }
+        | _ =>
+          { s with out := .ob (.fetch s.nextReq s.fetchOffset s.bufferSize) :: s.out,
+                   retryCall := .none, requestD := .pending s.nextReq .fetch false, nextReq := s.nextReq + 1 }) := by
+  unfold doFetch emit
+  simp only [h1]
+  cases hr : s.retryCall <;> simp [h2, h3, h4]
+
+theorem offsetErrorTail_pres (cfg : Cfg) (f : Fail) : Pres cfg (offsetErrorTail cfg f) := by
+  intro s hs
+  have hx := Good.refl hs
+  unfold offsetErrorTail
+  repeat' split
+  all_goals first
+    | exact hx
+    | exact (startErrback_pres cfg f).step hx
+    | exact (retryFetch_pres cfg none).step hx
+
+/-- `_handle_offset_error` for a request that is no longer counted as outstanding (cancelled) -/
+theorem handleOffsetError_good (cfg : Cfg) (f : Fail) {s0 s : St} (hx : Good cfg s0 s) (hq : activeReq s.requestD = none)
+    (hpk : s.parked = none) :
+    Good cfg s0 (handleOffsetError cfg f s) := by
   unfold handleOffsetError
-  simp only []
-  have h0 : Good cfg s { s with requestD := .none } := by leaf hx
-  split
-  · exact h0
-  · split
-    · exact h0
-    · split
-      · exact (startErrback_pres cfg f).step h0
-      · exact (retryFetch_pres cfg none).step h0
+  exact (offsetErrorTail_pres cfg f).step (by leaf hx)
 
-theorem handleFetchError_pres (cfg : Cfg) (f : Fail) : Pres cfg (handleFetchError cfg f) := by
+theorem fetchErrorTail_pres (cfg : Cfg) (f : Fail) : Pres cfg (fetchErrorTail cfg f) := by
   intro s hs
   have hx := Good.refl hs
-  unfold handleFetchError
+  unfold fetchErrorTail
   simp only []
-  have h0 : Good cfg s { s with requestD := .none } := by leaf hx
-  split
-  · exact h0
-  · split
-    · exact (startErrback_pres cfg f).step h0
-    · split
-      · split
-        · leaf hx
-        · split
-          · exact (startErrback_pres cfg f).step (by leaf hx)
-          · exact (retryFetch_pres cfg none).step (by leaf hx)
-      · split
-        · exact h0
-        · split
-          · exact (startErrback_pres cfg f).step h0
-          · exact (retryFetch_pres cfg none).step h0
+  repeat' split
+  all_goals first
+    | exact hx
+    | exact (startErrback_pres cfg f).step hx
+    | exact (retryFetch_pres cfg none).step hx
+    | leaf hx
+    | exact (startErrback_pres cfg f).step (by leaf hx)
+    | exact (retryFetch_pres cfg none).step (by leaf hx)
+
+/-- `_handle_fetch_error` for a request that is no longer counted as outstanding -/
+theorem handleFetchError_good (cfg : Cfg) (f : Fail) {s0 s : St} (hx : Good cfg s0 s) (hq : activeReq s.requestD = none)
+    (hpk : s.parked = none) :
+    Good cfg s0 (handleFetchError cfg f s) := by
+  unfold handleFetchError
+  exact (fetchErrorTail_pres cfg f).step (by leaf hx)
 
 /-- `commit()` -/
 theorem commitState_pres (cfg : Cfg) (w : Who) : Pres cfg (commitState cfg w) := by
@@ -90,11 +113,22 @@ theorem commitUser_pres (cfg : Cfg) : Pres cfg (commitUser cfg) := by
 
 /-- `s'` differs from `s` in nothing the processing loop looks at. -/
 def Keeps (s s' : St) : Prop :=
+  s'.proc = s.proc ∧ s'.stopping = s.stopping ∧ s'.msgBlock = s.msgBlock ∧ (s'.startD = .none ↔ s.startD = .none) ∧
+    s'.retryCall = s.retryCall ∧ s'.requestD = s.requestD ∧ s'.parked = s.parked
+
+/-- … except possibly the refetch timer -/
+def Keeps0 (s s' : St) : Prop :=
   s'.proc = s.proc ∧ s'.stopping = s.stopping ∧ s'.msgBlock = s.msgBlock ∧ (s'.startD = .none ↔ s.startD = .none)
 
-theorem Keeps.refl (s : St) : Keeps s s := ⟨rfl, rfl, rfl, Iff.rfl⟩
-theorem Keeps.trans {a b c : St} (h1 : Keeps a b) (h2 : Keeps b c) : Keeps a c :=
+theorem Keeps.to0 {s s' : St} (h : Keeps s s') : Keeps0 s s' := ⟨h.1, h.2.1, h.2.2.1, h.2.2.2.1⟩
+theorem Keeps0.refl (s : St) : Keeps0 s s := ⟨rfl, rfl, rfl, Iff.rfl⟩
+theorem Keeps0.trans {a b c : St} (h1 : Keeps0 a b) (h2 : Keeps0 b c) : Keeps0 a c :=
   ⟨h2.1.trans h1.1, h2.2.1.trans h1.2.1, h2.2.2.1.trans h1.2.2.1, h2.2.2.2.trans h1.2.2.2⟩
+
+theorem Keeps.refl (s : St) : Keeps s s := ⟨rfl, rfl, rfl, Iff.rfl, rfl, rfl, rfl⟩
+theorem Keeps.trans {a b c : St} (h1 : Keeps a b) (h2 : Keeps b c) : Keeps a c :=
+  ⟨h2.1.trans h1.1, h2.2.1.trans h1.2.1, h2.2.2.1.trans h1.2.2.1, h2.2.2.2.1.trans h1.2.2.2.1, h2.2.2.2.2.1.trans h1.2.2.2.2.1,
+    h2.2.2.2.2.2.1.trans h1.2.2.2.2.2.1, h2.2.2.2.2.2.2.trans h1.2.2.2.2.2.2⟩
 
 theorem looperReset_keeps (cfg : Cfg) (s : St) : Keeps s (looperReset cfg s) := by
   unfold Keeps looperReset emit; grind
@@ -111,9 +145,9 @@ theorem commitState_keeps (cfg : Cfg) (w : Who) (s : St) : Keeps s (commitState 
   · split
     · exact Keeps.refl s
     · split
-      · cases w <;> exact ⟨rfl, rfl, rfl, Iff.rfl⟩
+      · cases w <;> exact ⟨rfl, rfl, rfl, Iff.rfl, rfl, rfl, rfl⟩
       · simp only []
-        exact keeps_send cfg _ s ⟨rfl, rfl, rfl, Iff.rfl⟩
+        exact keeps_send cfg _ s ⟨rfl, rfl, rfl, Iff.rfl, rfl, rfl, rfl⟩
 theorem startErrback_keeps (f : Fail) (s : St) : Keeps s (startErrback f s) := by
   unfold Keeps startErrback emit; grind
 theorem handleAutoCommitError_keeps (f : Fail) (s : St) : Keeps s (handleAutoCommitError f s) := by
@@ -131,7 +165,7 @@ theorem autoCommit_keeps (cfg : Cfg) (b : Bool) (s : St) : Keeps s (autoCommit c
     | exact Keeps.refl s
     | exact Keeps.trans (commitState_keeps cfg .auto s) (handleAutoCommitError_keeps _ _)
     | exact commitState_keeps cfg .auto s
-    | exact ⟨rfl, rfl, rfl, Iff.rfl⟩
+    | exact ⟨rfl, rfl, rfl, Iff.rfl, rfl, rfl, rfl⟩
 theorem handleProcessorError_keeps (f : Fail) (s : St) : Keeps s (handleProcessorError f s) := by
   unfold handleProcessorError
   split
